@@ -30,23 +30,28 @@ def c05(s):
             if li > i0 and sid == k:
                 end = li
                 break
-        for j in range(i0, end):
-            if k in s.snaps[j][0]:
+        for j in range(i0, len(s.events)):
+            if k in s.snaps[j][0] and (j < end or s.snaps[j][0][k].dek == t.dek):
                 e = s.snaps[j][0][k]
-                out.append(("c05-entry-after-logout",
-                            "store entry of a logged-out session exists/reappears after the logout answered success%s" %
-                            (" (and has no expiry)" if e.ttl == -1 else ""),
+                key = "c05-entry-after-logout" if j < end else "c05-stale-refresh-overwrites-relogin"
+                out.append((key,
+                            "store entry of a logged-out session exists/reappears after the logout answered success%s%s" %
+                            (" (and has no expiry)" if e.ttl == -1 else "",
+                             "" if j < end else ": an in-flight refresh of the old session overwrote the session created by a later login under the same session id"),
                             {"logout_thread": t.tid, "event_index": j, "key": k}))
                 break
         for o in s.threads.values():
-            if o.spawn_idx <= i0 or o.spawn_idx >= end or o.k != k or o.kind in LOGOUT_SUCCESS:
+            if o.spawn_idx <= i0 or o.k != k or o.kind in LOGOUT_SUCCESS:
                 continue
-            if o.outcome is None:
+            if o.spawn_idx >= end and o.dek != t.dek:
+                continue  # a request with the cookie of the later login
+            if o.outcome is None or t.dek is None and o.spawn_idx >= end:
                 continue
             ok_out = authenticated(o.outcome) or o.outcome[0] == 3 or (o.kind == "f" and o.outcome[:2] == [2, 204])
             idp = [op for (_, op, _, _) in o.ops if op[0] == 6]
             if ok_out or idp:
-                out.append(("c05-authenticated-after-logout",
+                key = "c05-authenticated-after-logout" if o.spawn_idx < end else "c05-stale-refresh-overwrites-relogin"
+                out.append((key,
                             "request started after a successful logout is treated as authenticated / refreshes",
                             {"logout_thread": t.tid, "later_thread": o.tid}))
     return out
@@ -67,7 +72,17 @@ def c10(s):
                 out.append(("c10-nonpositive-ttl", "session entry with non-positive remaining TTL", {"event_index": j, "key": k}))
                 return out
             if e.dek != -9 and e.ttl + (now - e.created) > s.cfg.maxlife:
-                out.append(("c10-ttl-exceeds-lifetime", "TTL exceeds max lifetime counted from creation", {"event_index": j, "key": k}))
+                # which login created the entry that currently sits under this key?
+                latest = None
+                for (li, sid, _) in s.logins:
+                    if sid == k and li <= j and k in s.snaps[li][0] and s.snaps[li][0][k].created == s.now_at[li]:
+                        latest = s.snaps[li][0][k].dek
+                if latest is not None and latest != e.dek:
+                    out.append(("c10-stale-refresh-overwrites-relogin",
+                                "an in-flight refresh of a logged-out session overwrote the session of a later login under the same id: the old session now carries the new entry's TTL (beyond its own creation + max lifetime)",
+                                {"event_index": j, "key": k}))
+                else:
+                    out.append(("c10-ttl-exceeds-lifetime", "TTL exceeds max lifetime counted from creation", {"event_index": j, "key": k}))
                 return out
         for k, ttl in ls.items():
             if ttl == -1 or ttl > LOCK_LEASE or ttl <= 0:
